@@ -127,7 +127,7 @@ def run(ctx: core.Ctx) -> int:
             for dlt in (-17, -16, -9, -1, 0, 3):
                 cases.append({"tid": len(cases) + 1, "g": g, "via": "lint", "place": "beyond", "snippet": True, "poison": False,
                               "eol": "\n", "marker_at": 4096 * k + dlt + 1})
-    events = core.pmap(run_case, cases, chunksize=64)
+    events = ctx.pmap(run_case, cases, chunksize=64)
     for ev in events[:: max(1, len(events) // 5)][:5]:
         ctx.samples.append({k: ev[k] for k in ("line", "via", "place", "snippet", "poison", "eol", "obs")})
     ctx.validate("Trace_C02", "Trace_C02.cfg", events)
@@ -147,4 +147,4 @@ def run(ctx: core.Ctx) -> int:
 
 
 def replay(ctx: core.Ctx, path: str) -> int:
-    raise core.MachineryError("replay for C02 re-runs the case list; use the check with the same VERIF_SEED")
+    return core.generic_replay(ctx, path)
